@@ -153,6 +153,9 @@ def run(prog: Program, rep: Report, tier: str):
     rule_hook(prog, rep)
     rule_exact(prog, rep)
     rule_ctor(prog, rep)
+    # the validators see the arguments as given
+    from .c08 import rule_new_constructors
+    rule_new_constructors(prog, rep, "C13.ctor")
     # the distribution methods' shape check lives in the vectoriser: no public path may reach a core around it
     from .c06 import rule_public_lift
     rule_public_lift(prog, rep, "C13.exact")
@@ -223,6 +226,24 @@ def rule_hook(prog, rep):
                       f"defined in the body of {owner.name}",
                       f"{name} comes from {owner.qualname}, which is not a concrete-method body inside the "
                       f"AbstractBijection hierarchy: the class-creation hook never wraps it")
+    # an interface method bound in a class body by ASSIGNMENT instead of a def
+    for k in prog.subclasses(BIJ):
+        for st in k.node.body:
+            tgts = st.targets if isinstance(st, ast.Assign) else [st.target] if isinstance(st, ast.AnnAssign) and st.value else []
+            for t in tgts:
+                if isinstance(t, ast.Name) and t.id in FOUR:
+                    src = ast.unparse(st.value)
+                    site2 = f"{k.module.relpath}:{st.lineno}"
+                    if "partialmethod" in src or "property" in src:
+                        rep.violated("C13.hook", site2, f"{k.qualname}.{t.id}:checked",
+                                     f"{k.name}.{t.id} is bound by `{t.id} = {src[:80]}`: the class-creation hook skips every "
+                                     f"class-body entry that has an __isabstractmethod__ attribute, which functools.partialmethod "
+                                     f"objects (and properties) always have - the method is installed without shape / condition "
+                                     f"checks and without unwrapping")
+                    else:
+                        rep.undecided("C13.hook", site2, f"{k.qualname}.{t.id}:checked",
+                                      f"interface method bound by assignment `{t.id} = {src[:80]}` (not a def): whether the "
+                                      f"hook wraps it is not decided")
     # nothing installed after class creation
     names = {k.name for k in classes}
     late = []
